@@ -719,6 +719,11 @@ class Interp:
         if mark and mark not in st.marks:
             st = st.copy()
             st.marks = st.marks | {mark}
+        # (for loops `clear_marks_at` means "at the start of every iteration"; for any other statement: when it is executed)
+        unmark = self.clear_marks_at.get(id(node)) if not isinstance(node, (ast.For, ast.While)) else None
+        if unmark and unmark in st.marks:
+            st = st.copy()
+            st.marks = st.marks - {unmark}
         self._record(node, st)
         method = getattr(self, "s_" + type(node).__name__, None)
         if method is None:
